@@ -189,7 +189,12 @@ pub fn lane_random_from(tier: Tier, seed: u64, start: usize, n: usize, tag: &str
                     let cram = g.chance(35);
                     let dir = if g.chance(50) { format!("d{}/", k) } else { String::new() };
                     let name = if g.chance(30) { "same".to_string() } else { format!("doc{}", k) };
-                    let path = format!("{}{}.{}", dir, name, if cram { "t" } else { "md" });
+                    let ext = if cram {
+                        *g.pick(&["t", "t", "cram"])
+                    } else {
+                        *g.pick(&["md", "md", "markdown"])
+                    };
+                    let path = format!("{}{}.{}", dir, name, ext);
                     if docs.iter().any(|d: &Doc| d.path == path) {
                         continue;
                     }
@@ -232,6 +237,13 @@ pub fn lane_random_from(tier: Tier, seed: u64, start: usize, n: usize, tag: &str
                 }
                 if g.chance(15) {
                     cli.combine_output = Some(g.chance(50));
+                }
+                if g.chance(10) {
+                    cli.keep_crlf = Some(g.chance(50));
+                }
+                if g.chance(8) {
+                    // another shell that exists (the simulator does not care which one it is)
+                    cli.shell = Some((*g.pick(&["/bin/sh", "/usr/bin/bash", "bash"])).to_string());
                 }
                 random_faults(&mut g, &mut sim, n_procs);
                 if g.chance(20) {
